@@ -55,9 +55,10 @@ fn gen_my(rng: &mut Rng, out: &mut Vec<String>, i: usize) {
     }
     let nops = 1 + rng.below(5);
     let mut ops = vec![];
+    let band = !simple && m > w && rng.chance(1, 2);
     for _ in 0..nops {
-        let k = mu::threshold(rng, m, simple);
-        let mut t = mu::text(rng, &alpha, &p, k);
+        let k = if band { rng.below(4) } else { mu::threshold(rng, m, simple) };
+        let mut t = if band { mu::band_text(rng, &alpha, &p, k, w) } else { mu::text(rng, &alpha, &p, k) };
         sprinkle(rng, &mut t, &extra);
         match rng.below(6) {
             0 => ops.push(format!("d:{}", hex(&t))),
@@ -177,7 +178,7 @@ fn enum_seqs(alpha: &[u8], maxlen: usize, minlen: usize) -> Vec<Vec<u8>> {
 }
 
 pub fn gen(tier: &str, rng: &mut Rng, out: &mut Vec<String>) {
-    let n = if tier == "thorough" { 300_000 } else { 10_000 };
+    let n = if tier == "thorough" { 200_000 } else { 10_000 };
     for i in 0..n {
         match i % 10 {
             8 => gen_uk(rng, out),
@@ -186,9 +187,9 @@ pub fn gen(tier: &str, rng: &mut Rng, out: &mut Vec<String>) {
         }
     }
     if tier == "thorough" {
-        // exhaustive small scope: all p (1..=4), t (0..=7) over {a,b}, k 0..=5; texts grouped per (p, k)
-        let ps = enum_seqs(b"ab", 4, 1);
-        let ts = enum_seqs(b"ab", 7, 0);
+        // exhaustive small scope: all p (1..=5), t (0..=8) over {a,b}, k 0..=5; texts grouped per (p, k)
+        let ps = enum_seqs(b"ab", 5, 1);
+        let ts = enum_seqs(b"ab", 8, 0);
         for p in &ps {
             for k in 0..=5usize {
                 for (ci, chunk) in ts.chunks(32).enumerate() {
